@@ -198,7 +198,8 @@ fn random_call_cfg(rng: &mut Rng, n: usize, allow_mut: bool, apis: &[Api]) -> Ca
         cfg.incl = rng.chance(1, 2);
     }
     if api.has_limit() {
-        cfg.lim = [0, 0, 0, 1, 2, 3][rng.below(6)];
+        // also limits at and above the number of functions
+        cfg.lim = [0, 0, 0, 1, 2, 3, n.max(1), n + 1, 1000][rng.below(9)];
     }
     for i in 0..n {
         if rng.chance(15, 100) {
